@@ -556,5 +556,10 @@ def run(chk):
     run_j4(chk, P)
     shared.rule_errno_target(chk, P, 'J5')
     run_j7(chk, P)
+    # J8 (= C05-Q7): a job handed to the stage dispatch is stamped BEING_PROCESSED first
+    from . import c05 as _c05
+    j8 = chk.rule('J8', 'every path that hands a job to the stage dispatch first sets its status to BEING_PROCESSED (a ring slot keeps the status of its previous use)', floor=9)
+    for tu_ in P.variant_tus():
+        _c05.run_q7(j8, P, tu_, tu_.split('__')[0])
     run_j2(chk, P)
     run_j6(chk, P)
